@@ -934,3 +934,156 @@ def orc_c02(case, obs):
 
 
 prop("C02", ["c02_roundtrip", "c02_accepts_13", "c02_completes", "c02_schedule"], ["ENC", "DEC", "SYS"], gen_c02, [orc_c02])
+
+
+# ------------------------------------------------------------------------------------------------
+# C10 frames walked by consumed lengths (twin cases: frame walk vs packets delivered alone)
+# ------------------------------------------------------------------------------------------------
+def gen_c10(rng, t):
+    out = []
+    for i in range(500 * t):
+        a, b = Case("c10_walk%d" % i), Case("c10_alone%d" % i)
+        slots = rng.choice([1, 2, 3])
+        maxpdu = 40
+        mgr = rng.choice(["simple", MGR_ALL])
+        pre = ["ENEW", "DNEW %d %d %s" % (slots, maxpdu, mgr)]
+        for k in range(rng.range(0, 4)):
+            pre.append("DPROV %d" % (maxpdu + k))
+        a.ops, b.ops = list(pre), list(pre)
+        a.add("FCLEAR")
+        npk = 0
+        for _ in range(rng.range(1, 8)):
+            r = rng.below(12)
+            lab = rng.choice([L6A, L6A, L3A, "B", "R"])
+            pl = rng.range(0, 50)
+            if r < 5:
+                op = "ENCAP %s %d 2048 %s %d 1" % (pdu_tok(rng, pl), rng.below(3), lab, rng.choice([80, pl + 4, rng.range(8, 30)]))
+            elif r < 8:
+                op = "EFRAGC %d 1" % rng.choice([5, 8, 13, 30, 80])
+            elif r < 9:
+                op = "EFRAG %s %d %d %d %d 1" % (pdu_tok(rng, pl), rng.below(3), rng.below(1 << 32), rng.range(0, pl), rng.choice([pl + 7, 9, 20]))
+            elif r < 10:
+                op = "EEXT %s %d 2048 %s 90 1 %s" % (pdu_tok(rng, pl), rng.below(3), lab, exts_tok(rand_chain(rng, maxn=2)))
+            else:
+                op = "ENCAP %s %d 2048 %s 90 1" % (pdu_tok(rng, rng.range(41, 60)), rng.below(3), lab)   # too big for the storage
+            drop = rng.chance(0.12)     # the packet is produced but not put in the frame (lost): later ones get rejected
+            a.add(op)
+            b.add(op)
+            if drop:
+                a.add("FCLEARFRESH")
+                b.add("FCLEARFRESH")
+            else:
+                a.add("FPUSH")
+                b.add("DECAPN -")
+                npk += 1
+        m = rng.choice([0, 0, 2, 3, 10, 1])
+        a.add("FPAD %d" % m, "FWALK")
+        b.meta["pad"] = m
+        a.meta["twin"] = b.name
+        out += [a, b]
+    return out
+
+
+def orc_c10_pairs(byname, impl):
+    bad = []
+    for name, a in byname.items():
+        if "twin" not in a.meta:
+            continue
+        oa, ob = impl.get(name), impl.get(a.meta["twin"])
+        b = byname[a.meta["twin"]]
+        if not oa or not ob:
+            continue
+        alone = [ob[i] for i, op in enumerate(b.ops) if op.startswith("DECAPN") and ob[i] != "nopkt"]
+        pushed = [oa[i] for i, op in enumerate(a.ops) if op == "FPUSH" and oa[i] != "nopkt"]
+        walk = oa[-1]
+        if walk.startswith("PANIC") or "PANIC" in walk:
+            bad.append((a, "panic while walking the frame"))
+            continue
+        parts = walk.split(" | ")
+        results = [x for x in parts[1:] if x.strip()]
+        m = b.meta["pad"]
+        exp = list(alone)
+        flen = int(pushed[-1].split(" ")[1]) if pushed else 0
+        if m >= 2:
+            exp.append("ok padding consumed=%d" % m)
+        elif m == 1:
+            exp.append("err SizeBuffer consumed=1")
+        if results != exp:
+            k = next((j for j in range(max(len(results), len(exp))) if j >= len(results) or j >= len(exp) or results[j] != exp[j]), 0)
+            bad.append((a, "frame walk step %d: %r, alone: %r" % (k, (results[k] if k < len(results) else None), (exp[k] if k < len(exp) else None))))
+    return bad
+
+
+def orc_c10(case, obs):
+    bad = []
+    for op, ob in zip(case.ops, obs):
+        t = op.split(" ")
+        if t[0] in ("ENCAP", "EEXT", "EFRAG", "EFRAGC"):
+            e = EncObs(ob)
+            if e.ok and len(e.pkt) >= 1 and (e.pkt[0] >> 4) == 0:
+                bad.append("the encapsulator emitted a packet that reads as padding: %s" % e.pkt[:4].hex())
+    return bad
+
+
+prop("C10", ["c10_tail_independent", "c10_walk", "c10_sender_well_framed", "c10_sender_frag_well_framed", "c10_never_padding"],
+     ["DEC", "ENC"], gen_c10, [orc_c10], pair_oracle=orc_c10_pairs)
+
+
+# ------------------------------------------------------------------------------------------------
+# C19 peek agrees with decap
+# ------------------------------------------------------------------------------------------------
+def gen_c19(rng, t):
+    out = []
+    for i in range(700 * t):
+        c = Case("c19_%d" % i)
+        c.add("ENEW", "DNEW 2 64 %s" % MGR_ALL, "DPROV 64", "DPROV 65", "DPROV 66")
+        for _ in range(rng.range(1, 6)):
+            r = rng.below(10)
+            lab = rng.choice([L6A, L6A, L3A, "B", "R", L6B])
+            pl = rng.range(0, 60)
+            if r < 5:
+                c.add("ENCAP %s %d %d %s %d 1" % (pdu_tok(rng, pl), rng.below(256), rng.choice([2048, 0xFFFF]), lab, rng.choice([100, rng.range(7, 40)])))
+            elif r < 7:
+                c.add("EEXT %s %d 2048 %s %d 1 %s" % (pdu_tok(rng, pl), rng.below(256), lab, rng.choice([120, rng.range(20, 50)]), exts_tok(rand_chain(rng, maxn=3))))
+            else:
+                c.add("EFRAGC %d 1" % rng.choice([8, 13, 30, 100]))
+            c.add("PEEKL %s" % hx(rng.bytes(rng.choice([0, 0, 3]))), "DECAPN -", "DPROVBACK")
+        c.meta["c19"] = True
+        out.append(c)
+    return out
+
+
+def orc_c19(case, obs):
+    bad = []
+    if not case.meta.get("c19"):
+        return bad
+    last = None
+    for i, (op, ob) in enumerate(zip(case.ops, obs)):
+        t = op.split(" ")
+        if t[0] in ("ENCAP", "EEXT", "EFRAGC"):
+            e = EncObs(ob)
+            last = (t, e) if e.ok else None
+        elif t[0] == "PEEKL" and last is not None:
+            (lt, e) = last
+            p = parse_packet(e.pkt, KNOWN_EXT_FIXED)
+            if isinstance(p, str):
+                continue
+            if ob.startswith("PANIC"):
+                bad.append("peek panics on %s" % e.pkt[:8].hex())
+            elif p.kind in ("I", "E"):
+                if ob != "ok fragid %d" % p.fid:
+                    bad.append("peek on a continuation packet of frag id %d: %s" % (p.fid, ob))
+            else:
+                exp = "err LabelReuse" if p.lt == 3 else "ok label %s" % p.label
+                if ob != exp:
+                    bad.append("peek %s, the packet carries %s" % (ob, exp))
+                # what decap associates with the packet (next op is DECAPN of the same packet)
+                nxt = obs[i + 1] if i + 1 < len(obs) else ""
+                w, d = kv(nxt)
+                if w[:1] == ["ok"] and p.lt != 3 and d.get("label") not in (None, p.label):
+                    bad.append("peek label %s, decap label %s" % (p.label, d.get("label")))
+            last = None
+    return bad
+
+
+prop("C19", ["c19_peek_start", "c19_peek_frag"], ["SYS"], gen_c19, [orc_c19])
